@@ -91,7 +91,7 @@ def r1(ctx):
             ctx.check(va == pa and va, "C03.R1", IE, "validated-entry-is-stored-entry", "validate_entry entry %s / put entry %s" % (sorted(va), sorted(pa)), t["sp"])
     # (c) callers of insert_entry that may pass a non-local origin validate emptiness first
     ie_outer = "sync::Replica::<'a, I>::insert_entry"
-    n_callers = 0
+    n_callers = n_local = n_remote = 0
     for b in f.bodies.values():
         for bi, t in b.calls():
             if t["f"].get("name") == "insert_entry" and callee_matches(t, r"sync::Replica"):
@@ -100,8 +100,10 @@ def r1(ctx):
                 origs = trace(b, t["a"][2])
                 local_only = all(o.kind == "agg" and o.data[0][0] == "adt" and o.data[0][2] == "Local" for o in origs) and origs
                 if local_only:
+                    n_local += 1
                     ctx.ok("C03.R1", b.path, "insert_entry-call.local-origin", "passes InsertOrigin::Local (covered by R5)", t["sp"])
                     continue
+                n_remote += 1
                 covered = ens_em.ensures(ie_outer) or ens_em.ensures("sync::validate_entry")
                 if not covered:
                     for gbi, gt in b.calls():
@@ -112,8 +114,8 @@ def r1(ctx):
                                 covered = True
                 ctx.check(covered, "C03.R1", b.path, "remote-insert.validate_empty",
                           "a non-local origin reaches insert_entry only after validate_empty succeeded", t["sp"])
-    if n_callers < 3:
-        raise mir.AnchorMissing("expected >=3 callers of Replica::insert_entry, found %d" % n_callers)
+    if n_callers < 2 or not n_local or not n_remote:
+        raise mir.AnchorMissing("expected callers of Replica::insert_entry with a local and with a remote origin, found %d (local %d, remote %d)" % (n_callers, n_local, n_remote))
     # (d) reconciliation path: put dominated by the true edge of the validate callback
     pm = f.body(PM)
     ctx.touch(pm)
@@ -144,16 +146,23 @@ def r1(ctx):
     ctx.check(ok_em, "C03.R1", vcl.path, "validate-closure.ensures-validate_empty",
               why_em + ("" if ok_em else "; the reconciliation path stores entries whose emptiness was never validated (hash==EMPTY xor len==0), which the direct path rejects"), vcl.sp)
     # the closure validates the entry it was given, for this replica's namespace, with a non-Local origin
-    ve_calls = [(bi, t) for bi, t in vcl.calls() if callee_matches(t, VE)]
+    from .common import ip_trace
+    vscope = f.scope(vcl.path, prefix="sync::")
+    ve_calls = [(x, bi, t) for x in vscope for bi, t in x.calls() if callee_matches(t, VE)]
     if len(ve_calls) == 1:
-        t = ve_calls[0][1]
-        ent = trace(vcl, t["a"][3])
+        vx, _, t = ve_calls[0]
+        ctx.touch(vx)
+
+        def tr(op):
+            # provenance in the validate closure's own terms (through the parameters of a helper it calls)
+            return [o for bb, o in ip_trace(f, vx, op, [vcl])]
+        ent = tr(t["a"][3])
         ctx.check(all(o.kind == "arg" and o.data[0] == 3 for o in ent) and ent, "C03.R1", vcl.path, "validates-the-received-entry",
                   "entry argument of validate_entry is the callback's entry parameter: %s" % [origin_summary(o) for o in ent], t["sp"])
-        org = trace(vcl, t["a"][4])
+        org = tr(t["a"][4])
         ctx.check(all(o.kind == "agg" and o.data[0][2] == "Sync" for o in org) and org, "C03.R1", vcl.path, "origin-is-Sync",
                   "origin passed for reconciliation entries: %s (Local would skip signature verification)" % [origin_summary(o) for o in org], t["sp"])
-        ns = trace(vcl, t["a"][2])
+        ns = tr(t["a"][2])
         ctx.check(all(o.kind == "upvar" and o.data == "my_namespace" for o in ns) and ns, "C03.R1", vcl.path, "namespace-is-captured-my_namespace",
                   "%s" % [origin_summary(o) for o in ns], t["sp"])
         # my_namespace in the parent = self.id()
@@ -375,6 +384,7 @@ def r4(ctx):
 def r5(ctx):
     f = ctx.facts
     allowed = {"sync::Replica::<'a, I>::insert::{closure#0}", "sync::Replica::<'a, I>::delete_prefix::{closure#0}"}
+    roots = {"sync::Replica::<'a, I>::insert", "sync::Replica::<'a, I>::delete_prefix"}
     n = 0
     for b in f.bodies.values():
         if b.rec.get("derived"):
@@ -382,10 +392,10 @@ def r5(ctx):
         for bi, si, s in b.statements():
             if s["k"] == "assign" and s["r"][0] == "agg" and s["r"][1][0] == "adt" and s["r"][1][1] == "sync::InsertOrigin" and s["r"][1][2] == "Local":
                 n += 1
-                ctx.check(b.path in allowed, "C03.R5", b.path, "constructs-InsertOrigin::Local",
-                          "the verification-skipping Local origin may be constructed only in Replica::insert / delete_prefix", s["sp"])
-    if n < 2:
-        raise mir.AnchorMissing("expected >=2 constructions of InsertOrigin::Local, found %d" % n)
+                ctx.check(f.only_reached_from(b.path, roots), "C03.R5", b.path, "constructs-InsertOrigin::Local",
+                          "the verification-skipping Local origin may be constructed only in Replica::insert / delete_prefix (or a private helper only they call)", s["sp"])
+    if n < 1:
+        raise mir.AnchorMissing("expected a construction of InsertOrigin::Local, found none")
     # in those two functions the entry is signed with the capability's secret key (success payload of secret_key)
     for p in sorted(allowed):
         ctx.touch(f.body(p))
@@ -402,7 +412,7 @@ def r5(ctx):
         ctx.touch(b)
         ok = any(o.kind == "call" and o.data["f"].get("name") == "secret_key" for o in trace(b, t["a"][1]))
         ctx.check(ok, "C03.R5", p, "signs-with-capability-secret", "the namespace key passed to Entry::sign is the Ok payload of secret_key() (in %s)" % b.path, t["sp"])
-    ctx.floor("C03.R5", 4)
+    ctx.floor("C03.R5", 3)
 
 
 def r6(ctx):
